@@ -13,6 +13,16 @@
 //!  5. rsync.triples / https.triples : all triples of a denser small domain
 //!                  (relation matrices computed by n^2 real calls, then every
 //!                  triple with a true first premise is inspected).
+//!  6. rsync.long / https.long  : LENGTH dimension - authority, module name and
+//!                  path of every length 1..=80, 127-129, 255-257, 1023-1025
+//!                  with one case flip at every position and in the scheme;
+//!                  all pair and join laws and the unary oracles on them
+//!                  (block / buffer sizes inside the library are invisible to
+//!                  an alphabet-length bound).
+//!  7. rsync.forms / https.forms : CONSTRUCTION-FORM dimension - every public
+//!                  way to obtain a value (constructors, views into shared
+//!                  buffers, clone, parent/join results, serde); every law
+//!                  must answer as for the from_str operands.
 //!
 //! The reference model works on the *text* only (documented grammar, split on
 //! '/', ASCII lower-casing of scheme and authority); it never calls the
@@ -49,7 +59,7 @@ use std::sync::Mutex;
 use rayon::prelude::*;
 use rpki::uri::{Https, Rsync};
 use rpki_verif::engine::enumerate::{seq_at, seq_count};
-use rpki_verif::{guard, hex, Ctx};
+use rpki_verif::{guard, hex, Ctx, Space};
 use serde_json::json;
 
 const SCHEMES: [&str; 8] = ["rsync://", "RSYNC://", "rSync://", "https://", "HTTPS://", "rsync:/", "http://", ""];
@@ -354,6 +364,191 @@ fn group(m: Stored) -> BTreeMap<usize, Vec<Vec<u8>>> {
     out
 }
 
+// ------------------------------------------------- pair and join law runners
+
+/// All ordered pairs of `ru` against the text model (see the `rsync.pairs` rule).
+fn rsync_pairs(ctx: &Ctx, sp: &Space, ru: &[RU]) {
+    let n = ru.len();
+    batched(ctx, n, 2048, |i, fl| {
+        let a = &ru[i];
+        let mut oc: Oc = BTreeMap::new(); let mut nt = 0u64;
+        let (mut c_ident, mut c_eq, mut c_uneq, mut c_none, mut c_empty, mut c_path, mut c_par) = (0u64, 0u64, 0u64, 0u64, 0u64, 0u64, 0u64);
+        for j in 0..n {
+            let b = &ru[j];
+            let wit = || format!("self={} other={}", s(&a.text), s(&b.text));
+            let obs = guard(|| {
+                let eq = a.uri == b.uri; let eq_rev = b.uri == a.uri;
+                let rel = a.uri.relative_to(&b.uri);
+                let par = a.uri.is_parent_of(&b.uri);
+                let par_rep = ru[a.rep].uri.is_parent_of(&ru[b.rep].uri);
+                (eq, eq_rev, rel, par, par_rep)
+            });
+            let (eq, eq_rev, rel, par, par_rep) = match obs { Ok(o) => o, Err(p) => { fl.fail("C12.rsync.pair.nopanic", &wit, || p); continue } };
+            let m_eq = a.pkey == b.pkey && a.path == b.path;
+            let m_slash_eq = a.pkey == b.pkey && strip1(&a.path) == strip1(&b.path);
+            let m_par = beneath(&a.pkey, &a.dir, &b.pkey, &b.path);
+            if eq != m_eq { fl.fail("C12.rsync.eq.model", &wit, || format!("== is {eq}, text model (scheme+authority case-insensitive, rest exact) says {m_eq}")) }
+            if eq != eq_rev { fl.fail("C12.rsync.eq.symmetric", &wit, || format!("a==b is {eq}, b==a is {eq_rev}")) }
+            if eq && a.hash != b.hash { fl.fail("C12.rsync.eq.hash", &wit, || "equal URIs hash differently".into()) }
+            let rel_empty = rel == Some("");
+            if rel_empty != m_slash_eq {
+                fl.fail("C12.rsync.relative_to.empty", &wit, || format!("relative_to = {rel:?}; equal up to one trailing slash: {m_slash_eq}"));
+            }
+            if let Some(p) = rel { if !p.is_empty() {
+                fl.check("C12.rsync.relative_to.join", &wit, || {
+                    let back = b.uri.join(p.as_bytes()).map_err(|e| format!("relative_to = Some({p:?}) but other.join fails: {e}"))?;
+                    if !(back == a.uri) { return Err(format!("relative_to = Some({p:?}) but other.join gives {:?} which is != self", back.as_str())) }
+                    Ok(())
+                });
+            }}
+            if par && eq { fl.fail("C12.rsync.is_parent_of.irreflexive", &wit, || "is_parent_of holds between equal URIs".into()) }
+            if par != m_par { fl.fail("C12.rsync.is_parent_of.model", &wit, || format!("self.is_parent_of(other) = {par}; text model (other lies beneath self under this equality) says {m_par}")) }
+            if par != par_rep {
+                fl.fail("C12.rsync.is_parent_of.eq_invariant", &wit, || format!("is_parent_of = {par} but {par_rep} for the equal URIs {} / {}", s(&ru[a.rep].text), s(&ru[b.rep].text)));
+            }
+            if i != j && (m_eq || rel.is_some() || par) { nt += 1 }
+            if eq { if i == j { c_ident += 1 } else { c_eq += 1 } } else { c_uneq += 1 }
+            match rel { None => c_none += 1, Some("") => c_empty += 1, Some(_) => c_path += 1 }
+            if par { c_par += 1 }
+        }
+        for (k, v) in [("identical", c_ident), ("equal-different-text", c_eq), ("unequal", c_uneq), ("relative_to-none", c_none),
+                       ("relative_to-empty", c_empty), ("relative_to-path", c_path), ("is-parent", c_par)] { if v > 0 { oc.insert(k, v); } }
+        sp.evals(n as u64); sp.nontrivial(nt); sp.merge_outcomes(&oc);
+    });
+}
+
+/// All ordered pairs of `hu` against the text model (see the `https.pairs` rule).
+fn https_pairs(ctx: &Ctx, sp: &Space, hu: &[HU]) {
+    let n = hu.len();
+    batched(ctx, n, 2048, |i, fl| {
+        let a = &hu[i];
+        let mut oc: Oc = BTreeMap::new(); let mut nt = 0u64;
+        let (mut c_ident, mut c_eq, mut c_auth, mut c_uneq) = (0u64, 0u64, 0u64, 0u64);
+        for j in 0..n {
+            let b = &hu[j];
+            let wit = || format!("a={} b={}", s(&a.text), s(&b.text));
+            let obs = guard(|| (a.uri == b.uri, b.uri == a.uri, a.uri.eq_authority(&b.uri)));
+            let (eq, eq_rev, eqa) = match obs { Ok(o) => o, Err(p) => { fl.fail("C12.https.pair.nopanic", &wit, || p); continue } };
+            let m_eq = a.pkey == b.pkey && a.path == b.path;
+            if eq != m_eq { fl.fail("C12.https.eq.model", &wit, || format!("== is {eq}, text model says {m_eq}")) }
+            if eq != eq_rev { fl.fail("C12.https.eq.symmetric", &wit, || format!("a==b is {eq}, b==a is {eq_rev}")) }
+            if eq && a.hash != b.hash { fl.fail("C12.https.eq.hash", &wit, || "equal URIs hash differently".into()) }
+            if eqa != (a.auth_lc == b.auth_lc) { fl.fail("C12.https.eq_authority", &wit, || format!("eq_authority = {eqa}")) }
+            if i != j && (m_eq || a.auth_lc == b.auth_lc) { nt += 1 }
+            if eq { if i == j { c_ident += 1 } else { c_eq += 1 } } else if eqa { c_auth += 1 } else { c_uneq += 1 }
+        }
+        for (k, v) in [("identical", c_ident), ("equal-different-text", c_eq), ("same-authority-unequal", c_auth), ("unequal", c_uneq)] { if v > 0 { oc.insert(k, v); } }
+        sp.evals(n as u64); sp.nontrivial(nt); sp.merge_outcomes(&oc);
+    });
+}
+
+/// All (base, arg) joins (see the `rsync.join` rule).
+fn rsync_joins(ctx: &Ctx, sp: &Space, rj: &[RU], args: &[Vec<u8>]) {
+    let n = rj.len();
+    batched(ctx, n, 2048, |i, fl| {
+        let a = &rj[i];
+        let mut oc: Oc = BTreeMap::new(); let mut nt = 0u64;
+        for p in args {
+            let wit = || format!("base={} arg={:?}", s(&a.text), s(p));
+            let r = match guard(|| a.uri.join(p)) {
+                Err(pn) => { fl.fail("C12.rsync.join.valid", &wit, || pn); continue }
+                Ok(Err(_)) => {
+                    // concatenation per the documentation
+                    let mut cat = a.text.clone(); if !cat.ends_with(b"/") { cat.push(b'/') } cat.extend_from_slice(p);
+                    bump(&mut oc, if model_rsync(&cat).is_ok() && !p.starts_with(b"/") { "rejected-though-concatenation-valid" } else { "rejected" });
+                    continue
+                }
+                Ok(Ok(r)) => r,
+            };
+            if !fl.check("C12.rsync.join.valid", &wit, || valid_rsync(&r)) { continue }
+            if p.is_empty() {
+                bump(&mut oc, "empty-argument");
+                fl.check("C12.rsync.join.empty", &wit, || if r == a.uri { Ok(()) } else { Err(format!("join with the empty path gave {:?}", r.as_str())) });
+                continue
+            }
+            nt += 1; bump(&mut oc, "joined");
+            let rm = model_rsync(r.as_slice()).expect("validated above");
+            fl.check("C12.rsync.join.beneath", &wit, || {
+                if !a.uri.is_parent_of(&r) { return Err(format!("base is not is_parent_of the result {:?}", r.as_str())) }
+                if !beneath(&a.pkey, &a.dir, &rsync_prefix_key(&rm), rm.path) { return Err(format!("result {:?} does not lie beneath the base (text model)", r.as_str())) }
+                Ok(())
+            });
+            fl.check("C12.rsync.relative_to.join", &wit, || {
+                match r.relative_to(&a.uri) {
+                    Some(q) if !q.is_empty() => {
+                        let back = a.uri.join(q.as_bytes()).map_err(|e| format!("join of relative path {q:?} fails: {e}"))?;
+                        if back == r { Ok(()) } else { Err(format!("base.join(result.relative_to(base) = {q:?}) = {:?} != result {:?}", back.as_str(), r.as_str())) }
+                    }
+                    _ => Ok(())   // only non-empty answers are constrained by this clause
+                }
+            });
+            if !strip1(p).contains(&b'/') {
+                bump(&mut oc, "single-segment");
+                fl.check("C12.rsync.join.parent", &wit, || {
+                    let par = r.parent().ok_or_else(|| format!("result {:?} has no parent", r.as_str()))?;
+                    let pm = model_rsync(par.as_slice()).map_err(|e| e.to_string())?;
+                    if rsync_prefix_key(&pm) != a.pkey || strip1(pm.path) != strip1(&a.path) {
+                        return Err(format!("parent of the result is {:?}, not the base (up to one trailing slash)", par.as_str()))
+                    }
+                    Ok(())
+                });
+            }
+        }
+        sp.evals(args.len() as u64); sp.nontrivial(nt); sp.merge_outcomes(&oc);
+    });
+}
+
+/// All (base, arg) joins (see the `https.join` rule).
+fn https_joins(ctx: &Ctx, sp: &Space, hj: &[HU], args: &[Vec<u8>]) {
+    let n = hj.len();
+    batched(ctx, n, 2048, |i, fl| {
+        let a = &hj[i];
+        let a_dir = https_dir(&a.path);
+        let mut oc: Oc = BTreeMap::new(); let mut nt = 0u64;
+        for p in args {
+            let wit = || format!("base={} arg={:?}", s(&a.text), s(p));
+            let r = match guard(|| a.uri.join(p)) {
+                Err(pn) => { fl.fail("C12.https.join.valid", &wit, || pn); continue }
+                Ok(Err(_)) => { bump(&mut oc, if p.iter().all(|&b| permitted(b)) { "rejected-though-permitted" } else { "rejected" }); continue }
+                Ok(Ok(r)) => r,
+            };
+            if a.path.is_empty() { bump(&mut oc, "base-without-path") }
+            if !fl.check("C12.https.join.valid", &wit, || valid_https(&r)) { continue }
+            let rm = model_https(r.as_slice()).expect("validated above");
+            if p.is_empty() {
+                bump(&mut oc, "empty-argument");
+                fl.check("C12.https.join.empty", &wit, || {
+                    if https_prefix_key(&rm) == a.pkey && strip1(rm.path) == strip1(&a.path) { Ok(()) }
+                    else { Err(format!("join with the empty path gave {:?}", r.as_str())) }
+                });
+                continue
+            }
+            nt += 1; bump(&mut oc, "joined");
+            // An argument made of slashes only names the base directory
+            // itself; anything else must lie strictly beneath it.
+            let strict = p.iter().any(|&b| b != b'/');
+            fl.check("C12.https.join.beneath", &wit, || {
+                let inside = https_prefix_key(&rm) == a.pkey && rm.path.starts_with(&a_dir) && (!strict || rm.path.len() > a_dir.len());
+                if !inside { return Err(format!("result {:?} does not lie beneath the base (text model)", r.as_str())) }
+                Ok(())
+            });
+            let seg = strip1(p);
+            if !seg.contains(&b'/') && !seg.is_empty() {
+                bump(&mut oc, "single-segment");
+                fl.check("C12.https.join.parent", &wit, || {
+                    let par = r.parent().ok_or_else(|| format!("result {:?} has no parent", r.as_str()))?;
+                    let pm = model_https(par.as_slice()).map_err(|e| e.to_string())?;
+                    if https_prefix_key(&pm) != a.pkey || strip1(pm.path) != strip1(&a.path) {
+                        return Err(format!("parent of the result is {:?}, not the base (up to one trailing slash)", par.as_str()))
+                    }
+                    Ok(())
+                });
+            }
+        }
+        sp.evals(args.len() as u64); sp.nontrivial(nt); sp.merge_outcomes(&oc);
+    });
+}
+
 // --------------------------------------------------------------------- main
 
 fn main() {
@@ -363,14 +558,14 @@ fn main() {
     ctx.assume("std::hash::DefaultHasher::new() is deterministic; a property-level hash disagreement would show with any hasher");
 
     // bounds per tier (tail lengths over the 7-symbol alphabet)
-    let max_tail: u32 = ctx.tier.pick(8, 9);          // parse space
+    let max_tail: u32 = ctx.tier.pick(7, 9);          // parse space
     let pair_r: usize = ctx.tier.pick(6, 7);           // rsync pairs
     let pair_h: usize = ctx.tier.pick(5, 6);           // https pairs
-    let join_r: usize = 6;                             // rsync join bases
+    let join_r: usize = ctx.tier.pick(5, 6);           // rsync join bases
     let join_h: usize = ctx.tier.pick(4, 5);           // https join bases
     let arg_len: u32 = ctx.tier.pick(4, 5);            // join arguments
     let tri_tail: u32 = ctx.tier.pick(8, 9);           // triples, 3-symbol alphabet
-    let store_r = pair_r.max(join_r); let store_h = pair_h.max(join_h);
+    let store_r = pair_r.max(join_r); let store_h = pair_h.max(join_h);   // (the forms spaces use shorter tails)
 
     // ---------------------------------------------------------------- 1. parse
     let sp = ctx.space("parse",
@@ -480,52 +675,7 @@ fn main() {
         "all ordered pairs (self, other) of accepted rsync URIs (3 scheme spellings, tails up to the stated length): ==, hash, symmetry, relative_to, is_parent_of against the text model; non-trivial = pairs of different texts that are model-equal, or where relative_to returns Some, or where is_parent_of holds");
     {
         let n = ru.len();
-        batched(&ctx, n, 2048, |i, fl| {
-            let a = &ru[i];
-            let mut oc: Oc = BTreeMap::new(); let mut nt = 0u64;
-            let (mut c_ident, mut c_eq, mut c_uneq, mut c_none, mut c_empty, mut c_path, mut c_par) = (0u64, 0u64, 0u64, 0u64, 0u64, 0u64, 0u64);
-            for j in 0..n {
-                let b = &ru[j];
-                let wit = || format!("self={} other={}", s(&a.text), s(&b.text));
-                let obs = guard(|| {
-                    let eq = a.uri == b.uri; let eq_rev = b.uri == a.uri;
-                    let rel = a.uri.relative_to(&b.uri);
-                    let par = a.uri.is_parent_of(&b.uri);
-                    let par_rep = ru[a.rep].uri.is_parent_of(&ru[b.rep].uri);
-                    (eq, eq_rev, rel, par, par_rep)
-                });
-                let (eq, eq_rev, rel, par, par_rep) = match obs { Ok(o) => o, Err(p) => { fl.fail("C12.rsync.pair.nopanic", &wit, || p); continue } };
-                let m_eq = a.pkey == b.pkey && a.path == b.path;
-                let m_slash_eq = a.pkey == b.pkey && strip1(&a.path) == strip1(&b.path);
-                let m_par = beneath(&a.pkey, &a.dir, &b.pkey, &b.path);
-                if eq != m_eq { fl.fail("C12.rsync.eq.model", &wit, || format!("== is {eq}, text model (scheme+authority case-insensitive, rest exact) says {m_eq}")) }
-                if eq != eq_rev { fl.fail("C12.rsync.eq.symmetric", &wit, || format!("a==b is {eq}, b==a is {eq_rev}")) }
-                if eq && a.hash != b.hash { fl.fail("C12.rsync.eq.hash", &wit, || "equal URIs hash differently".into()) }
-                let rel_empty = rel == Some("");
-                if rel_empty != m_slash_eq {
-                    fl.fail("C12.rsync.relative_to.empty", &wit, || format!("relative_to = {rel:?}; equal up to one trailing slash: {m_slash_eq}"));
-                }
-                if let Some(p) = rel { if !p.is_empty() {
-                    fl.check("C12.rsync.relative_to.join", &wit, || {
-                        let back = b.uri.join(p.as_bytes()).map_err(|e| format!("relative_to = Some({p:?}) but other.join fails: {e}"))?;
-                        if !(back == a.uri) { return Err(format!("relative_to = Some({p:?}) but other.join gives {:?} which is != self", back.as_str())) }
-                        Ok(())
-                    });
-                }}
-                if par && eq { fl.fail("C12.rsync.is_parent_of.irreflexive", &wit, || "is_parent_of holds between equal URIs".into()) }
-                if par != m_par { fl.fail("C12.rsync.is_parent_of.model", &wit, || format!("self.is_parent_of(other) = {par}; text model (other lies beneath self under this equality) says {m_par}")) }
-                if par != par_rep {
-                    fl.fail("C12.rsync.is_parent_of.eq_invariant", &wit, || format!("is_parent_of = {par} but {par_rep} for the equal URIs {} / {}", s(&ru[a.rep].text), s(&ru[b.rep].text)));
-                }
-                if i != j && (m_eq || rel.is_some() || par) { nt += 1 }
-                if eq { if i == j { c_ident += 1 } else { c_eq += 1 } } else { c_uneq += 1 }
-                match rel { None => c_none += 1, Some("") => c_empty += 1, Some(_) => c_path += 1 }
-                if par { c_par += 1 }
-            }
-            for (k, v) in [("identical", c_ident), ("equal-different-text", c_eq), ("unequal", c_uneq), ("relative_to-none", c_none),
-                           ("relative_to-empty", c_empty), ("relative_to-path", c_path), ("is-parent", c_par)] { if v > 0 { oc.insert(k, v); } }
-            sp.evals(n as u64); sp.nontrivial(nt); sp.merge_outcomes(&oc);
-        });
+        rsync_pairs(&ctx, &sp, &ru);
         sp.set("uris", json!(n)); sp.set("tail_length", json!(pair_r));
         sp.sample_str(|| format!("first/last URI of the set: {} … {}", s(&ru[0].text), s(&ru[n - 1].text)));
         sp.done(true, &format!("all {n}^2 ordered pairs of the accepted rsync URIs with tail length <= {pair_r}")); lap(&t0, &sp.name);
@@ -538,26 +688,7 @@ fn main() {
         "all ordered pairs of accepted https URIs (2 scheme spellings, tails up to the stated length): ==, hash, symmetry, eq_authority against the text model; non-trivial = pairs of different texts that are model-equal or share the authority");
     {
         let n = hu.len();
-        batched(&ctx, n, 2048, |i, fl| {
-            let a = &hu[i];
-            let mut oc: Oc = BTreeMap::new(); let mut nt = 0u64;
-            let (mut c_ident, mut c_eq, mut c_auth, mut c_uneq) = (0u64, 0u64, 0u64, 0u64);
-            for j in 0..n {
-                let b = &hu[j];
-                let wit = || format!("a={} b={}", s(&a.text), s(&b.text));
-                let obs = guard(|| (a.uri == b.uri, b.uri == a.uri, a.uri.eq_authority(&b.uri)));
-                let (eq, eq_rev, eqa) = match obs { Ok(o) => o, Err(p) => { fl.fail("C12.https.pair.nopanic", &wit, || p); continue } };
-                let m_eq = a.pkey == b.pkey && a.path == b.path;
-                if eq != m_eq { fl.fail("C12.https.eq.model", &wit, || format!("== is {eq}, text model says {m_eq}")) }
-                if eq != eq_rev { fl.fail("C12.https.eq.symmetric", &wit, || format!("a==b is {eq}, b==a is {eq_rev}")) }
-                if eq && a.hash != b.hash { fl.fail("C12.https.eq.hash", &wit, || "equal URIs hash differently".into()) }
-                if eqa != (a.auth_lc == b.auth_lc) { fl.fail("C12.https.eq_authority", &wit, || format!("eq_authority = {eqa}")) }
-                if i != j && (m_eq || a.auth_lc == b.auth_lc) { nt += 1 }
-                if eq { if i == j { c_ident += 1 } else { c_eq += 1 } } else if eqa { c_auth += 1 } else { c_uneq += 1 }
-            }
-            for (k, v) in [("identical", c_ident), ("equal-different-text", c_eq), ("same-authority-unequal", c_auth), ("unequal", c_uneq)] { if v > 0 { oc.insert(k, v); } }
-            sp.evals(n as u64); sp.nontrivial(nt); sp.merge_outcomes(&oc);
-        });
+        https_pairs(&ctx, &sp, &hu);
         sp.set("uris", json!(n)); sp.set("tail_length", json!(pair_h));
         sp.sample_str(|| format!("first/last URI of the set: {} … {}", s(&hu[0].text), s(&hu[n - 1].text)));
         sp.done(true, &format!("all {n}^2 ordered pairs of the accepted https URIs with tail length <= {pair_h}")); lap(&t0, &sp.name);
@@ -571,57 +702,7 @@ fn main() {
         "all (base, arg): base over the accepted rsync URIs up to the stated tail length, arg over every string over {a,A,b,/,.,:,SPACE} up to the length bound: result validity/re-parse, lies-beneath-base, parent(join(base, one segment)), relative_to round trip; non-trivial = joins with a non-empty argument that succeed");
     {
         let n = rj.len();
-        batched(&ctx, n, 2048, |i, fl| {
-            let a = &rj[i];
-            let mut oc: Oc = BTreeMap::new(); let mut nt = 0u64;
-            for p in &args {
-                let wit = || format!("base={} arg={:?}", s(&a.text), s(p));
-                let r = match guard(|| a.uri.join(p)) {
-                    Err(pn) => { fl.fail("C12.rsync.join.valid", &wit, || pn); continue }
-                    Ok(Err(_)) => {
-                        // concatenation per the documentation
-                        let mut cat = a.text.clone(); if !cat.ends_with(b"/") { cat.push(b'/') } cat.extend_from_slice(p);
-                        bump(&mut oc, if model_rsync(&cat).is_ok() && !p.starts_with(b"/") { "rejected-though-concatenation-valid" } else { "rejected" });
-                        continue
-                    }
-                    Ok(Ok(r)) => r,
-                };
-                if !fl.check("C12.rsync.join.valid", &wit, || valid_rsync(&r)) { continue }
-                if p.is_empty() {
-                    bump(&mut oc, "empty-argument");
-                    fl.check("C12.rsync.join.empty", &wit, || if r == a.uri { Ok(()) } else { Err(format!("join with the empty path gave {:?}", r.as_str())) });
-                    continue
-                }
-                nt += 1; bump(&mut oc, "joined");
-                let rm = model_rsync(r.as_slice()).expect("validated above");
-                fl.check("C12.rsync.join.beneath", &wit, || {
-                    if !a.uri.is_parent_of(&r) { return Err(format!("base is not is_parent_of the result {:?}", r.as_str())) }
-                    if !beneath(&a.pkey, &a.dir, &rsync_prefix_key(&rm), rm.path) { return Err(format!("result {:?} does not lie beneath the base (text model)", r.as_str())) }
-                    Ok(())
-                });
-                fl.check("C12.rsync.relative_to.join", &wit, || {
-                    match r.relative_to(&a.uri) {
-                        Some(q) if !q.is_empty() => {
-                            let back = a.uri.join(q.as_bytes()).map_err(|e| format!("join of relative path {q:?} fails: {e}"))?;
-                            if back == r { Ok(()) } else { Err(format!("base.join(result.relative_to(base) = {q:?}) = {:?} != result {:?}", back.as_str(), r.as_str())) }
-                        }
-                        _ => Ok(())   // only non-empty answers are constrained by this clause
-                    }
-                });
-                if !strip1(p).contains(&b'/') {
-                    bump(&mut oc, "single-segment");
-                    fl.check("C12.rsync.join.parent", &wit, || {
-                        let par = r.parent().ok_or_else(|| format!("result {:?} has no parent", r.as_str()))?;
-                        let pm = model_rsync(par.as_slice()).map_err(|e| e.to_string())?;
-                        if rsync_prefix_key(&pm) != a.pkey || strip1(pm.path) != strip1(&a.path) {
-                            return Err(format!("parent of the result is {:?}, not the base (up to one trailing slash)", par.as_str()))
-                        }
-                        Ok(())
-                    });
-                }
-            }
-            sp.evals(args.len() as u64); sp.nontrivial(nt); sp.merge_outcomes(&oc);
-        });
+        rsync_joins(&ctx, &sp, &rj, &args);
         sp.set("bases", json!(n)); sp.set("arguments", json!(args.len())); sp.set("base_tail_length", json!(join_r));
         sp.sample_str(|| "base=rsync://a/b/a arg=\"b/\" -> rsync://a/b/a/b/".into());
         sp.done(true, &format!("{n} bases (tail length <= {join_r}) x all {} arguments of length <= {arg_len}", args.len())); lap(&t0, &sp.name);
@@ -633,52 +714,7 @@ fn main() {
         "all (base, arg): base over the accepted https URIs up to the stated tail length, arg over every string over the 7-symbol alphabet up to the length bound: result validity/re-parse with the same authority, lies-beneath-base (text model), parent(join(base, one segment)); non-trivial = joins with a non-empty argument that succeed");
     {
         let n = hj.len();
-        batched(&ctx, n, 2048, |i, fl| {
-            let a = &hj[i];
-            let a_dir = https_dir(&a.path);
-            let mut oc: Oc = BTreeMap::new(); let mut nt = 0u64;
-            for p in &args {
-                let wit = || format!("base={} arg={:?}", s(&a.text), s(p));
-                let r = match guard(|| a.uri.join(p)) {
-                    Err(pn) => { fl.fail("C12.https.join.valid", &wit, || pn); continue }
-                    Ok(Err(_)) => { bump(&mut oc, if p.iter().all(|&b| permitted(b)) { "rejected-though-permitted" } else { "rejected" }); continue }
-                    Ok(Ok(r)) => r,
-                };
-                if a.path.is_empty() { bump(&mut oc, "base-without-path") }
-                if !fl.check("C12.https.join.valid", &wit, || valid_https(&r)) { continue }
-                let rm = model_https(r.as_slice()).expect("validated above");
-                if p.is_empty() {
-                    bump(&mut oc, "empty-argument");
-                    fl.check("C12.https.join.empty", &wit, || {
-                        if https_prefix_key(&rm) == a.pkey && strip1(rm.path) == strip1(&a.path) { Ok(()) }
-                        else { Err(format!("join with the empty path gave {:?}", r.as_str())) }
-                    });
-                    continue
-                }
-                nt += 1; bump(&mut oc, "joined");
-                // An argument made of slashes only names the base directory
-                // itself; anything else must lie strictly beneath it.
-                let strict = p.iter().any(|&b| b != b'/');
-                fl.check("C12.https.join.beneath", &wit, || {
-                    let inside = https_prefix_key(&rm) == a.pkey && rm.path.starts_with(&a_dir) && (!strict || rm.path.len() > a_dir.len());
-                    if !inside { return Err(format!("result {:?} does not lie beneath the base (text model)", r.as_str())) }
-                    Ok(())
-                });
-                let seg = strip1(p);
-                if !seg.contains(&b'/') && !seg.is_empty() {
-                    bump(&mut oc, "single-segment");
-                    fl.check("C12.https.join.parent", &wit, || {
-                        let par = r.parent().ok_or_else(|| format!("result {:?} has no parent", r.as_str()))?;
-                        let pm = model_https(par.as_slice()).map_err(|e| e.to_string())?;
-                        if https_prefix_key(&pm) != a.pkey || strip1(pm.path) != strip1(&a.path) {
-                            return Err(format!("parent of the result is {:?}, not the base (up to one trailing slash)", par.as_str()))
-                        }
-                        Ok(())
-                    });
-                }
-            }
-            sp.evals(args.len() as u64); sp.nontrivial(nt); sp.merge_outcomes(&oc);
-        });
+        https_joins(&ctx, &sp, &hj, &args);
         sp.set("bases", json!(n)); sp.set("arguments", json!(args.len())); sp.set("base_tail_length", json!(join_h));
         sp.sample_str(|| "base=https://a arg=\"b\" -> must be https://a/b (authority a)".into());
         sp.done(true, &format!("{n} bases (tail length <= {join_h}) x all {} arguments of length <= {arg_len}", args.len())); lap(&t0, &sp.name);
@@ -770,6 +806,355 @@ fn main() {
         sp.set("uris", json!(n)); sp.set("tail_length", json!(th_tail));
         sp.sample_str(|| "a=https://aA/ b=HTTPS://Aa/ c=https://AA/ : all equal".into());
         sp.done(true, &format!("all {n}^3 triples of the accepted https URIs with tails over {{a,A,/}} of length <= {th_tail}")); lap(&t0, &sp.name);
+    }
+
+    // ------------------------------------------------- 6. long components
+    // LENGTH dimension: internal block / buffer sizes are invisible to an
+    // alphabet-length bound. Every component length 1..=80 and the powers of
+    // two +-1 up to 1025, a 2-letter pattern, one ASCII case flip at every
+    // position of the component and of the scheme.
+    let lengths: Vec<usize> = (1..=80).chain([127, 128, 129, 255, 256, 257, 1023, 1024, 1025]).collect();
+    let pattern = |l: usize, slashes: bool| -> Vec<u8> {
+        (0..l).map(|i| if slashes && i % 8 == 7 && i + 1 < l { b'/' } else { b"ab"[i % 2] }).collect()
+    };
+    let flip = |v: &[u8], i: usize| -> Option<Vec<u8>> {
+        if !v[i].is_ascii_alphabetic() { return None }
+        let mut w = v.to_vec(); w[i] ^= 0x20; Some(w)
+    };
+    // variants of scheme ++ fixed ++ component ++ fixed: base, one flip per scheme letter, one flip per component position
+    let variants = |scheme: &[u8], pre: &[u8], comp: &[u8], post: &[u8]| -> Vec<Vec<u8>> {
+        let cat = |s: &[u8], c: &[u8]| { let mut t = s.to_vec(); t.extend_from_slice(pre); t.extend_from_slice(c); t.extend_from_slice(post); t };
+        let mut out = vec![cat(scheme, comp)];
+        for i in 0..5 { out.push(cat(&flip(scheme, i).unwrap(), comp)) }
+        for i in 0..comp.len() { if let Some(c) = flip(comp, i) { out.push(cat(scheme, &c)) } }
+        out
+    };
+    let long_args = |l: usize| -> Vec<Vec<u8>> {
+        let p = pattern(l, false); let mut pd = p.clone(); pd.push(b'/');
+        let mut v = vec![Vec::new(), b"x".to_vec(), b"x/".to_vec(), b"ab/cd".to_vec(), p, pd, pattern(l, true)];
+        v.sort(); v.dedup(); v
+    };
+    let sp = ctx.space("rsync.long",
+        "rsync URIs whose authority, module name or path has every length 1..=80, 127..129, 255..257, 1023..1025 (pattern abab…, the path with a slash every 8th octet): the base, one case flip at every position of that component and at every letter of the scheme, plus a child and the parent of five of these variants; unary oracles on each, ALL ordered pairs of the variants (==, hash, relative_to, is_parent_of against the text model), joins with short and equally long arguments, and every position overwritten by SPACE / DEL / 0x80 or followed by an empty or dot segment (must not be accepted); non-trivial = ordered pairs of different variants + successful non-empty joins");
+    {
+        let mut n_sets = 0u64; let mut n_uris = 0u64;
+        for &l in &lengths { for comp in 0..3 {
+            let texts = match comp {
+                0 => variants(b"rsync://", b"", &pattern(l, false), b"/m/d/f"),
+                1 => variants(b"rsync://", b"h/", &pattern(l, false), b"/d/f"),
+                _ => variants(b"rsync://", b"h/m/", &pattern(l, true), b""),
+            };
+            // children and parents of a few variants, so that relative_to / is_parent_of
+            // relate URIs across the case variants of the long component
+            let mut texts = texts;
+            for k in [0usize, 1, 6, 7, texts.len() - 1] {
+                if k >= texts.len() { continue }
+                let v = texts[k].clone();
+                let mut child = v.clone(); child.extend_from_slice(b"/zz"); texts.push(child);
+                if let Some(cutp) = v.iter().rposition(|&b| b == b'/') { let par = v[..cutp + 1].to_vec(); if model_rsync(&par).is_ok() { texts.push(par) } }
+            }
+            { let mut seen = std::collections::BTreeSet::new(); texts.retain(|x| seen.insert(x.clone())); }
+            // all of them must be accepted and pass the unary oracles
+            let mut fl = Fails::new(); let mut oc: Oc = BTreeMap::new(); let mut ok = Vec::new();
+            for t in &texts {
+                let wit = || format!("text={:?}", s(t));
+                sp.eval();
+                match guard(|| Rsync::from_slice(t)) {
+                    Err(p) => fl.fail("C12.rsync.parse.nopanic", &wit, || p),
+                    Ok(Err(_)) => bump(&mut oc, "long-uri-rejected"),
+                    Ok(Ok(u)) => { bump(&mut oc, "long-uri-accepted"); unary_rsync(&mut fl, t, &u, &wit, &mut oc); if model_rsync(t).is_ok() { ok.push(t.clone()) } }
+                }
+            }
+            // damaged copies of the base: a forbidden octet at every position; empty / dot segments behind the long part
+            let base = &texts[0];
+            let mut damaged: Vec<Vec<u8>> = Vec::new();
+            for i in 8..base.len() { for b in [b' ', 0x7f, 0x80] { let mut d = base.clone(); d[i] = b; damaged.push(d) } }
+            for tail in [&b"/../x"[..], b"/./x", b"//x", b"/..", b"/."] { let mut d = base.clone(); d.extend_from_slice(tail); damaged.push(d) }
+            for d in &damaged {
+                let wit = || format!("hex={}", hex(d));
+                sp.eval();
+                match guard(|| Rsync::from_slice(d)) {
+                    Err(p) => fl.fail("C12.rsync.parse.nopanic", &wit, || p),
+                    Ok(Err(_)) => bump(&mut oc, "damaged-long-uri-rejected"),
+                    Ok(Ok(u)) => { bump(&mut oc, "damaged-long-uri-accepted"); unary_rsync(&mut fl, d, &u, &wit, &mut oc) }
+                }
+            }
+            fl.flush(&ctx); sp.merge_outcomes(&oc);
+            let ru = mk_ru(&ok);
+            rsync_pairs(&ctx, &sp, &ru);
+            rsync_joins(&ctx, &sp, &ru, &long_args(l));
+            n_sets += 1; n_uris += ru.len() as u64;
+        }}
+        sp.set("lengths", json!(lengths)); sp.set("variant_sets", json!(n_sets)); sp.set("uris", json!(n_uris));
+        sp.sample_str(|| "rsync://ababababababababababababab/m/d/f vs rsync://ababababababababababababAb/m/d/f : equal, must hash equally (authority of 26 octets, flip at octet 24)".into());
+        sp.done(true, "3 components x 89 lengths (1..=80, 127-129, 255-257, 1023-1025) x (base + 5 scheme flips + one flip per position): all ordered pairs within each set, 7 join arguments per URI, 3 forbidden octets at every position");
+        lap(&t0, &sp.name);
+    }
+    let sp = ctx.space("https.long",
+        "https URIs whose authority or path has every length 1..=80, 127..129, 255..257, 1023..1025: base, one case flip at every position of the component and at every letter of the scheme; unary oracles, all ordered pairs of the variants (==, hash, eq_authority against the text model), joins with short and equally long arguments, forbidden octets at every position; non-trivial = ordered pairs of different variants + successful non-empty joins");
+    {
+        let mut n_sets = 0u64; let mut n_uris = 0u64;
+        for &l in &lengths { for comp in 0..2 {
+            let texts = match comp {
+                0 => variants(b"https://", b"", &pattern(l, false), b"/d/f"),
+                _ => variants(b"https://", b"h/", &pattern(l, true), b""),
+            };
+            let mut fl = Fails::new(); let mut oc: Oc = BTreeMap::new(); let mut ok = Vec::new();
+            for t in &texts {
+                let wit = || format!("text={:?}", s(t));
+                sp.eval();
+                match guard(|| Https::from_slice(t)) {
+                    Err(p) => fl.fail("C12.https.parse.nopanic", &wit, || p),
+                    Ok(Err(_)) => bump(&mut oc, "long-uri-rejected"),
+                    Ok(Ok(u)) => { bump(&mut oc, "long-uri-accepted"); unary_https(&mut fl, t, &u, &wit, &mut oc); if model_https(t).is_ok() { ok.push(t.clone()) } }
+                }
+            }
+            let base = &texts[0];
+            for i in 8..base.len() { for b in [b' ', 0x7f, 0x80] {
+                let mut d = base.clone(); d[i] = b;
+                let wit = || format!("hex={}", hex(&d));
+                sp.eval();
+                match guard(|| Https::from_slice(&d)) {
+                    Err(p) => fl.fail("C12.https.parse.nopanic", &wit, || p),
+                    Ok(Err(_)) => bump(&mut oc, "damaged-long-uri-rejected"),
+                    Ok(Ok(u)) => { bump(&mut oc, "damaged-long-uri-accepted"); unary_https(&mut fl, &d, &u, &wit, &mut oc) }
+                }
+            }}
+            fl.flush(&ctx); sp.merge_outcomes(&oc);
+            let hu = mk_hu(&ok);
+            https_pairs(&ctx, &sp, &hu);
+            https_joins(&ctx, &sp, &hu, &long_args(l));
+            n_sets += 1; n_uris += hu.len() as u64;
+        }}
+        sp.set("lengths", json!(lengths)); sp.set("variant_sets", json!(n_sets)); sp.set("uris", json!(n_uris));
+        sp.sample_str(|| "https://abab…(1024 octets)/d/f with one upper-case letter at each position in turn: all equal, all must hash equally".into());
+        sp.done(true, "2 components x 89 lengths x (base + 5 scheme flips + one flip per position): all ordered pairs within each set, 7 join arguments per URI, 3 forbidden octets at every position");
+        lap(&t0, &sp.name);
+    }
+
+    // ------------------------------------------------- 7. construction forms
+    // The answers of every law must not depend on how the operands came into
+    // being (own allocation, view into a shared buffer, result of another
+    // operation, deserialised). Differential against the from_str pair, whose
+    // answers are checked against the text model in rsync.pairs / https.pairs.
+    let form_r: usize = ctx.tier.pick(5, 6);
+    let form_h: usize = ctx.tier.pick(3, 4);
+    let sp = ctx.space("rsync.forms",
+        "every accepted rsync URI up to the stated tail length in every construction form (from_str, from_string, TryFrom<String>, from_slice, from_bytes on an own allocation, from_bytes on a view inside a larger buffer, clone, unshare, serde_json from str / from Value, result of parent(), result of join(), result of path_into_dir()); all ordered pairs of texts x all pairs of forms, plus - when one text is an octet prefix of the other - both operands as from_bytes views of ONE buffer starting at the same address (at the allocation start and at an offset) and as URI / its own parent() chain: ==, relative_to, is_parent_of and the per-value accessors, hash, parent, join must equal the answers for the from_str operands; non-trivial = (pair, form pair) combinations in which the from_str answer is not the trivial one (equal, Some, or parent) + all shared-buffer pairs");
+    {
+        let texts = upto(&r_by_len, form_r);
+        let n = texts.len();
+        type Obs = (String, String, String, String, u64, Option<String>, Option<String>, String);
+        let observe = |u: &Rsync| -> Obs { (u.as_str().to_string(), u.authority().to_string(), u.module_name().to_string(), u.path().to_string(), h(u),
+            u.parent().map(|p| p.to_string()), u.join(b"x/y").ok().map(|p| p.to_string()), serde_json::to_string(u).unwrap_or_default()) };
+        let forms_of = |t: &[u8]| -> Vec<(&'static str, Rsync)> {
+            let st = std::str::from_utf8(t).unwrap();
+            let mut v: Vec<(&'static str, Rsync)> = Vec::new();
+            let mut add = |name: &'static str, f: &dyn Fn() -> Option<Rsync>| { if let Ok(Some(u)) = guard(f) { v.push((name, u)) } };
+            add("from_str", &|| st.parse().ok());
+            add("from_string", &|| Rsync::from_string(st.to_string()).ok());
+            add("try_from_string", &|| Rsync::try_from(st.to_string()).ok());
+            add("from_slice", &|| Rsync::from_slice(t).ok());
+            add("from_bytes(own)", &|| Rsync::from_bytes(bytes::Bytes::copy_from_slice(t)).ok());
+            add("from_bytes(view inside a larger buffer)", &|| { let mut b = b"xy".to_vec(); b.extend_from_slice(t); b.extend_from_slice(b"zz/"); Rsync::from_bytes(bytes::Bytes::from(b).slice(2..2 + t.len())).ok() });
+            add("clone", &|| st.parse::<Rsync>().ok().map(|u| u.clone()));
+            add("unshare", &|| st.parse::<Rsync>().ok().map(|mut u| { u.unshare(); u }));
+            add("serde(str)", &|| serde_json::from_str(&serde_json::to_string(st).ok()?).ok());
+            add("serde(value)", &|| serde_json::from_value(serde_json::Value::String(st.to_string())).ok());
+            if t.ends_with(b"/") {
+                add("parent() of a child", &|| { let mut c = t.to_vec(); c.extend_from_slice(b"zz"); Rsync::from_slice(&c).ok()?.parent() });
+                add("path_into_dir()", &|| { let mut u = Rsync::from_slice(&t[..t.len() - 1]).ok()?; u.path_into_dir(); Some(u) });
+            }
+            if let Ok(m) = model_rsync(t) { if !m.path.is_empty() {
+                let seg_start = strip1(m.path).iter().rposition(|&b| b == b'/').map(|i| i + 1).unwrap_or(0);
+                let cut = t.len() - m.path.len() + seg_start;
+                add("join() result", &|| Rsync::from_slice(&t[..cut]).ok()?.join(&t[cut..]).ok());
+            }}
+            v.retain(|(_, u)| u.as_slice() == t);   // a form whose text differs is a different URI, not a form of this one
+            v
+        };
+        let forms: Vec<Vec<(&'static str, Rsync)>> = texts.par_iter().map(|t| forms_of(t)).collect();
+        // per-value observations
+        let mut fl = Fails::new(); let mut form_count = 0u64;
+        for (t, fs) in texts.iter().zip(&forms) {
+            let reference = match guard(|| observe(&fs[0].1)) { Ok(o) => o, Err(p) => { fl.fail("C12.rsync.forms.value", &|| format!("text={} form={}", s(t), fs[0].0), || p); continue } };
+            for (name, u) in fs.iter().skip(1) {
+                form_count += 1; sp.eval();
+                let wit = || format!("text={} form={name}", s(t));
+                match guard(|| observe(u)) {
+                    Err(p) => fl.fail("C12.rsync.forms.value", &wit, || p),
+                    Ok(o) => if o != reference { fl.fail("C12.rsync.forms.value", &wit, || format!("(text, authority, module, path, hash, parent, join, json) = {o:?}, but {reference:?} for the from_str form")) }
+                }
+            }
+        }
+        fl.flush(&ctx);
+        type PObs = (bool, bool, Option<String>, bool);
+        let pobs = |x: &Rsync, y: &Rsync| -> Result<PObs, String> { guard(|| (*x == *y, *y == *x, x.relative_to(y).map(|p| p.to_string()), x.is_parent_of(y))) };
+        batched(&ctx, n, 512, |i, fl| {
+            let (mut nt, mut c_triv, mut c_rel, mut ev) = (0u64, 0u64, 0u64, 0u64);
+            for j in 0..n {
+                let reference = match pobs(&forms[i][0].1, &forms[j][0].1) { Ok(o) => o, Err(_) => continue };   // reported by rsync.pairs
+                let trivial = !reference.0 && reference.2.is_none() && !reference.3;
+                for (na, x) in &forms[i] { for (nb, y) in &forms[j] {
+                    ev += 1; if trivial { c_triv += 1 } else { c_rel += 1; nt += 1 }
+                    let wit = || format!("self={}[{na}] other={}[{nb}]", s(&texts[i]), s(&texts[j]));
+                    match pobs(x, y) {
+                        Err(p) => fl.fail("C12.rsync.forms.pair", &wit, || p),
+                        Ok(o) => if o != reference { fl.fail("C12.rsync.forms.pair", &wit, || format!("(==, reversed ==, relative_to, is_parent_of) = {o:?}, but {reference:?} for the from_str operands")) }
+                    }
+                }}
+            }
+            sp.evals(ev); sp.nontrivial(nt);
+            sp.outcomes_n("reference-unrelated", c_triv); sp.outcomes_n("reference-related", c_rel);
+        });
+        // operands that share memory: only possible when `other` is an octet prefix of `self`.
+        // For every accepted text (longer tails than above) every prefix that is itself a valid URI.
+        let long_texts = upto(&r_by_len, store_r);
+        batched(&ctx, long_texts.len(), 4096, |i, fl| {
+            let ta = &long_texts[i];
+            let (mut c_shared, mut c_inside) = (0u64, 0u64);
+            for cut in 9..=ta.len() {
+                let tb = &ta[..cut];
+                if model_rsync(tb).is_err() { continue }
+                let fresh = |x: &[u8]| Rsync::from_slice(x).ok();
+                let (Some(fa), Some(fb)) = (fresh(ta), fresh(tb)) else { continue };
+                let mut shared: Vec<(&'static str, Option<(Rsync, Rsync)>)> = Vec::new();
+                shared.push(("views of one buffer from its start", guard(|| { let buf = bytes::Bytes::copy_from_slice(ta);
+                    Some((Rsync::from_bytes(buf.clone()).ok()?, Rsync::from_bytes(buf.slice(..tb.len())).ok()?)) }).ok().flatten()));
+                shared.push(("views of one buffer at an offset", guard(|| { let mut b = b"pad".to_vec(); b.extend_from_slice(ta); b.extend_from_slice(b"/tail"); let buf = bytes::Bytes::from(b);
+                    Some((Rsync::from_bytes(buf.slice(3..3 + ta.len())).ok()?, Rsync::from_bytes(buf.slice(3..3 + tb.len())).ok()?)) }).ok().flatten()));
+                shared.push(("URI and its own parent() chain", guard(|| { let a = Rsync::from_slice(ta).ok()?; let mut p = a.clone();
+                    while p.as_slice().len() > tb.len() { p = p.parent()? } if p.as_slice() == tb { Some((a, p)) } else { None } }).ok().flatten()));
+                shared.push(("URI and its clone", if cut == ta.len() { guard(|| { let a = Rsync::from_slice(ta).ok()?; let c = a.clone(); Some((a, c)) }).ok().flatten() } else { None }));
+                let inside_segment = cut < ta.len() && ta[cut - 1] != b'/' && ta[cut] != b'/';
+                for (name, pair) in shared {
+                    let Some((x, y)) = pair else { continue };
+                    for (rev, l, r, fl_, fr_) in [(false, &x, &y, &fa, &fb), (true, &y, &x, &fb, &fa)] {
+                        c_shared += 1; if inside_segment { c_inside += 1 }
+                        let reference = match pobs(fl_, fr_) { Ok(o) => o, Err(_) => continue };
+                        let wit = || if rev { format!("self={} other={} [{name}]", s(tb), s(ta)) } else { format!("self={} other={} [{name}]", s(ta), s(tb)) };
+                        match pobs(l, r) {
+                            Err(p) => fl.fail("C12.rsync.forms.pair", &wit, || p),
+                            Ok(o) => if o != reference { fl.fail("C12.rsync.forms.pair", &wit, || format!("(==, reversed ==, relative_to, is_parent_of) = {o:?}, but {reference:?} for independently allocated operands")) }
+                        }
+                    }
+                }
+            }
+            sp.evals(c_shared); sp.nontrivial(c_shared);
+            sp.outcomes_n("shared-memory-operands", c_shared); sp.outcomes_n("shared-memory-operands-cut-inside-a-segment", c_inside);
+        });
+        sp.set("texts_for_shared_memory_pairs", json!(long_texts.len())); sp.set("shared_tail_length", json!(store_r));
+        sp.set("texts", json!(n)); sp.set("forms_beyond_from_str", json!(form_count)); sp.set("tail_length", json!(form_r));
+        sp.sample_str(|| "self=rsync://a/a/ab other=rsync://a/a/a [views of one buffer from its start] : relative_to must be None, as for independently allocated operands".into());
+        sp.done(true, &format!("{n} texts (tail length <= {form_r}) in up to 13 forms each: all ordered pairs of texts x all form pairs; shared-memory constructions (2 kinds of views of one buffer, parent() chain, clone) for every (text, valid prefix of it) with tails up to the longer stored length, both operand orders"));
+        lap(&t0, &sp.name);
+    }
+    let sp = ctx.space("https.forms",
+        "every accepted https URI up to the stated tail length in every construction form (from_str, from_string, TryFrom<String>, from_slice, from_bytes own / view inside a larger buffer, clone, unshare, serde_json from str / Value, result of parent(), join(), path_into_dir()); all ordered pairs of texts x all pairs of forms, plus views of one shared buffer for prefix pairs: ==, eq_authority and the per-value accessors, hash, parent, join must equal the answers for the from_str operands; non-trivial = combinations whose from_str answer is 'equal' or 'same authority' + all shared-buffer pairs");
+    {
+        let texts = upto(&h_by_len, form_h);
+        let n = texts.len();
+        type Obs = (String, String, String, u64, Option<String>, Option<String>, String);
+        let observe = |u: &Https| -> Obs { (u.as_str().to_string(), u.authority().to_string(), u.path().to_string(), h(u),
+            u.parent().map(|p| p.to_string()), u.join(b"x/y").ok().map(|p| p.to_string()), serde_json::to_string(u).unwrap_or_default()) };
+        let forms_of = |t: &[u8]| -> Vec<(&'static str, Https)> {
+            let st = std::str::from_utf8(t).unwrap();
+            let mut v: Vec<(&'static str, Https)> = Vec::new();
+            let mut add = |name: &'static str, f: &dyn Fn() -> Option<Https>| { if let Ok(Some(u)) = guard(f) { v.push((name, u)) } };
+            add("from_str", &|| st.parse().ok());
+            add("from_string", &|| Https::from_string(st.to_string()).ok());
+            add("try_from_string", &|| Https::try_from(st.to_string()).ok());
+            add("from_slice", &|| Https::from_slice(t).ok());
+            add("from_bytes(own)", &|| Https::from_bytes(bytes::Bytes::copy_from_slice(t)).ok());
+            add("from_bytes(view inside a larger buffer)", &|| { let mut b = b"xy".to_vec(); b.extend_from_slice(t); b.extend_from_slice(b"zz/"); Https::from_bytes(bytes::Bytes::from(b).slice(2..2 + t.len())).ok() });
+            add("clone", &|| st.parse::<Https>().ok().map(|u| u.clone()));
+            add("unshare", &|| st.parse::<Https>().ok().map(|mut u| { u.unshare(); u }));
+            add("serde(str)", &|| serde_json::from_str(&serde_json::to_string(st).ok()?).ok());
+            add("serde(value)", &|| serde_json::from_value(serde_json::Value::String(st.to_string())).ok());
+            if t.ends_with(b"/") {
+                add("parent() of a child", &|| { let mut c = t.to_vec(); c.extend_from_slice(b"zz"); Https::from_slice(&c).ok()?.parent() });
+                add("path_into_dir()", &|| { let mut u = Https::from_slice(&t[..t.len() - 1]).ok()?; u.path_into_dir(); Some(u) });
+            }
+            if let Ok(m) = model_https(t) { if m.path.len() > 1 {
+                let seg_start = strip1(m.path).iter().rposition(|&b| b == b'/').map(|i| i + 1).unwrap_or(0);
+                let cut = t.len() - m.path.len() + seg_start;
+                add("join() result", &|| Https::from_slice(&t[..cut]).ok()?.join(&t[cut..]).ok());
+            }}
+            v.retain(|(_, u)| u.as_slice() == t);
+            v
+        };
+        let forms: Vec<Vec<(&'static str, Https)>> = texts.par_iter().map(|t| forms_of(t)).collect();
+        let mut fl = Fails::new(); let mut form_count = 0u64;
+        for (t, fs) in texts.iter().zip(&forms) {
+            let reference = match guard(|| observe(&fs[0].1)) { Ok(o) => o, Err(p) => { fl.fail("C12.https.forms.value", &|| format!("text={} form={}", s(t), fs[0].0), || p); continue } };
+            for (name, u) in fs.iter().skip(1) {
+                form_count += 1; sp.eval();
+                let wit = || format!("text={} form={name}", s(t));
+                match guard(|| observe(u)) {
+                    Err(p) => fl.fail("C12.https.forms.value", &wit, || p),
+                    Ok(o) => if o != reference { fl.fail("C12.https.forms.value", &wit, || format!("(text, authority, path, hash, parent, join, json) = {o:?}, but {reference:?} for the from_str form")) }
+                }
+            }
+        }
+        fl.flush(&ctx);
+        type PObs = (bool, bool, bool);
+        let pobs = |x: &Https, y: &Https| -> Result<PObs, String> { guard(|| (*x == *y, *y == *x, x.eq_authority(y))) };
+        batched(&ctx, n, 512, |i, fl| {
+            let (mut nt, mut c_triv, mut c_rel, mut ev) = (0u64, 0u64, 0u64, 0u64);
+            for j in 0..n {
+                let reference = match pobs(&forms[i][0].1, &forms[j][0].1) { Ok(o) => o, Err(_) => continue };
+                let trivial = !reference.0 && !reference.2;
+                for (na, x) in &forms[i] { for (nb, y) in &forms[j] {
+                    ev += 1; if trivial { c_triv += 1 } else { c_rel += 1; nt += 1 }
+                    let wit = || format!("a={}[{na}] b={}[{nb}]", s(&texts[i]), s(&texts[j]));
+                    match pobs(x, y) {
+                        Err(p) => fl.fail("C12.https.forms.pair", &wit, || p),
+                        Ok(o) => if o != reference { fl.fail("C12.https.forms.pair", &wit, || format!("(==, reversed ==, eq_authority) = {o:?}, but {reference:?} for the from_str operands")) }
+                    }
+                }}
+            }
+            sp.evals(ev); sp.nontrivial(nt);
+            sp.outcomes_n("reference-unrelated", c_triv); sp.outcomes_n("reference-related", c_rel);
+        });
+        let long_texts = upto(&h_by_len, store_h);
+        batched(&ctx, long_texts.len(), 4096, |i, fl| {
+            let ta = &long_texts[i];
+            let (mut c_shared, mut c_inside) = (0u64, 0u64);
+            for cut in 8..=ta.len() {
+                let tb = &ta[..cut];
+                if model_https(tb).is_err() { continue }
+                let fresh = |x: &[u8]| Https::from_slice(x).ok();
+                let (Some(fa), Some(fb)) = (fresh(ta), fresh(tb)) else { continue };
+                let mut shared: Vec<(&'static str, Option<(Https, Https)>)> = Vec::new();
+                shared.push(("views of one buffer from its start", guard(|| { let buf = bytes::Bytes::copy_from_slice(ta);
+                    Some((Https::from_bytes(buf.clone()).ok()?, Https::from_bytes(buf.slice(..tb.len())).ok()?)) }).ok().flatten()));
+                shared.push(("views of one buffer at an offset", guard(|| { let mut b = b"pad".to_vec(); b.extend_from_slice(ta); b.extend_from_slice(b"/tail"); let buf = bytes::Bytes::from(b);
+                    Some((Https::from_bytes(buf.slice(3..3 + ta.len())).ok()?, Https::from_bytes(buf.slice(3..3 + tb.len())).ok()?)) }).ok().flatten()));
+                shared.push(("URI and its own parent() chain", guard(|| { let a = Https::from_slice(ta).ok()?; let mut p = a.clone();
+                    while p.as_slice().len() > tb.len() { p = p.parent()? } if p.as_slice() == tb { Some((a, p)) } else { None } }).ok().flatten()));
+                shared.push(("URI and its clone", if cut == ta.len() { guard(|| { let a = Https::from_slice(ta).ok()?; let c = a.clone(); Some((a, c)) }).ok().flatten() } else { None }));
+                let inside_segment = cut < ta.len() && ta[cut - 1] != b'/' && ta[cut] != b'/';
+                for (name, pair) in shared {
+                    let Some((x, y)) = pair else { continue };
+                    for (rev, l, r, fl_, fr_) in [(false, &x, &y, &fa, &fb), (true, &y, &x, &fb, &fa)] {
+                        c_shared += 1; if inside_segment { c_inside += 1 }
+                        let reference = match pobs(fl_, fr_) { Ok(o) => o, Err(_) => continue };
+                        let wit = || if rev { format!("a={} b={} [{name}]", s(tb), s(ta)) } else { format!("a={} b={} [{name}]", s(ta), s(tb)) };
+                        match pobs(l, r) {
+                            Err(p) => fl.fail("C12.https.forms.pair", &wit, || p),
+                            Ok(o) => if o != reference { fl.fail("C12.https.forms.pair", &wit, || format!("(==, reversed ==, eq_authority) = {o:?}, but {reference:?} for independently allocated operands")) }
+                        }
+                    }
+                }
+            }
+            sp.evals(c_shared); sp.nontrivial(c_shared);
+            sp.outcomes_n("shared-memory-operands", c_shared); sp.outcomes_n("shared-memory-operands-cut-inside-a-segment", c_inside);
+        });
+        sp.set("texts_for_shared_memory_pairs", json!(long_texts.len())); sp.set("shared_tail_length", json!(store_h));
+        sp.set("texts", json!(n)); sp.set("forms_beyond_from_str", json!(form_count)); sp.set("tail_length", json!(form_h));
+        sp.sample_str(|| "a=https://a/ab b=https://a/a [views of one buffer from its start] : == must be false".into());
+        sp.done(true, &format!("{n} texts (tail length <= {form_h}) in up to 13 forms each: all ordered pairs of texts x all form pairs; shared-memory constructions (2 kinds of views of one buffer, parent() chain, clone) for every (text, valid prefix of it) with tails up to the longer stored length, both operand orders"));
+        lap(&t0, &sp.name);
     }
     let suppressed = SUPPRESSED.load(AtomicOrdering::Relaxed);
     if suppressed > 0 {
